@@ -5,9 +5,16 @@ SPEC = {
   "props/C06.vo"
  ],
  "case_libs": [
-  "theories/CasesBytes.vo"
+  "theories/CasesBytes.vo",
+  "theories/CasesCodec.vo"
  ],
  "drivers": [
+  {
+   "driver": "codec",
+   "profiles": [
+    "debug"
+   ]
+  },
   {
    "driver": "bytes",
    "profiles": [
